@@ -88,6 +88,8 @@ pub fn scenarios(cs: usize, fat: u8) -> Vec<Scenario> {
     add("seek-back", vec![], Target::Op(Op::Seek { h: 1, whence: 0, off: (cs + 1) as i64 }), &mut v);
     add("read-start", vec![Op::Seek { h: 1, whence: 0, off: 0 }], Target::Op(Op::Read { h: 1, len: 100 }), &mut v);
     add("read-at-boundary", vec![Op::Seek { h: 1, whence: 0, off: cs as i64 }], Target::Op(Op::Read { h: 1, len: cs }), &mut v);
+    add("extents-fragmented", vec![], Target::Op(Op::Extents { h: 1 }), &mut v);
+    add("extents-after-seek-to-start", vec![Op::Seek { h: 1, whence: 0, off: 0 }], Target::Op(Op::Extents { h: 1 }), &mut v);
     add("truncate-mid-chain", vec![Op::Seek { h: 1, whence: 0, off: (cs / 2) as i64 }], Target::Op(Op::Truncate { h: 1 }), &mut v);
     add("truncate-to-zero", vec![Op::Seek { h: 1, whence: 0, off: 0 }], Target::Op(Op::Truncate { h: 1 }), &mut v);
     add("truncate-at-boundary", vec![Op::Seek { h: 1, whence: 0, off: cs as i64 }], Target::Op(Op::Truncate { h: 1 }), &mut v);
